@@ -12,7 +12,7 @@ namespace c11
   // ------------------------------------------------------------------------------------------------------------
   // shipped mesh files: listed once in the parent process (before any fork), sorted by (size, name)
   // ------------------------------------------------------------------------------------------------------------
-  struct MeshFile { std::string name, type; long size = 0; };
+  struct MeshFile { std::string name, type; long size = 0; bool surfmesh = false; };
   inline std::vector<MeshFile>& mesh_files() { static std::vector<MeshFile> v; return v; }
   inline std::string mesh_dir() { return std::string(FEAT_SOURCE_DIR) + "/data/meshes/"; }
   inline void init_files()
@@ -26,18 +26,20 @@ namespace c11
       std::ifstream f(mesh_dir() + n); std::string first; std::getline(f, first);
       MeshFile mf; mf.name = n; mf.size = (long)st.st_size;
       size_t p = first.find("mesh=\""); if(p != std::string::npos) { size_t q = first.find('"', p + 6); mf.type = first.substr(p + 6, q - p - 6); }
+      { std::stringstream ss; ss << first << "\n" << f.rdbuf(); mf.surfmesh = ss.str().find("<SurfaceMesh") != std::string::npos; }
       v.push_back(mf);
     }
     closedir(d);
     std::sort(v.begin(), v.end(), [](const MeshFile& a, const MeshFile& b) { return a.size != b.size ? a.size < b.size : a.name < b.name; });
   }
   inline bool deep() { static int d = -1; if(d < 0) { const char* e = getenv("C11_DEEP"); d = (e && *e == '1') ? 1 : 0; } return d == 1; }
-  template<typename M> inline std::vector<const MeshFile*> files_for(bool chart_only)
+  template<typename M> inline std::vector<const MeshFile*> files_for(bool chart_only, bool no_surfmesh)
   {
     std::vector<const MeshFile*> r; long lim = deep() ? 200000 : 16000;
     for(auto& f : mesh_files())
     {
       if(f.size > lim) continue;
+      if(no_surfmesh && f.surfmesh) continue;
       if(chart_only) { if(f.type.empty() && M::world_dim == 2 && f.name.find("2d_chart") != std::string::npos) r.push_back(&f); }
       else if(f.type == ShapeInfo<M>::type()) r.push_back(&f);
     }
@@ -176,6 +178,7 @@ namespace c11
     {
       typedef typename SubMeshOf<M>::Type SM;
       int k = t.pick({2, 2, 2, 2});
+      if(k == 1 && c.excl("c11-surfmesh-write")) k = 0;   // known finding: SurfaceMesh::write() omits the final newline
       if(k == 0)
       {
         c.label("chart:sphere"); double r = std::fabs(t.real_nz(vcls == 0 ? 0 : 2)); if(r < 1e-3) r = 1e-3; d.set("type", "sphere"); d.set("r", r);
@@ -237,8 +240,12 @@ namespace c11
       else if(kind == 3)
       {
         // entities of one dimension cd >= 1 plus the vertices they touch (optionally all their faces), topology deduced by feat3
-        int cd = t.flag(1, 2) ? dim : t.range(1, dim); bool complete = t.flag(1, 2); topo = true;
-        c.label("part:topology"); d.set("kind", "topology"); d.set("cell_dim", cd); d.set("complete", complete);
+        // Domain fact (false alarm fixed): a part with topology is closed under taking faces - every shipped file and every
+        // feat3 factory produces complete chains (n vertices, n-1 edges, ...).  For a part that lists cells but not their edges
+        // deduct_topology()/RedundantIndexSetBuilder invents the edges in the index set while get_num_entities(1) stays 0, and
+        // the writer then emits size="4 0 1" next to a 4-line <Topology dim="1"> which no reader accepts.  No caller builds that.
+        int cd = t.flag(1, 2) ? dim : t.range(1, dim); const bool complete = true; topo = true;
+        c.label("part:topology"); d.set("kind", "topology"); d.set("cell_dim", cd);
         sets[(size_t)cd] = gen_subset(t, m.get_num_entities(cd), true);
         std::vector<std::set<Index>> sub((size_t)dim + 1);
         for_dims<1, dim>([&](auto dc) {
@@ -350,7 +357,7 @@ namespace c11
     }
     else if(src == 2 || src == 4)
     {
-      auto fl = files_for<M>(src == 4);
+      auto fl = files_for<M>(src == 4, c.excl("c11-surfmesh-write"));
       if(fl.empty()) { src = 3; }
       else
       {
